@@ -53,6 +53,9 @@ def check(ctx):
     from .c01 import rhs_writers
     rhs_writers(ctx, "R5")
     _r6(ctx)
+    # occurrences count: no set / dict keyed by the species stands between a reactant list and the terms built from it
+    from ..multiplicity import rule as multiplicity_rule
+    multiplicity_rule(ctx, "R7", ['ode'], "the conserved sums")
 
 
 def _r6(ctx):
